@@ -33,6 +33,12 @@ def run(F, R, tier):
                 sym = sym[2]
             elif sym[0] == "call" and sym[1] and WRAP.search(sym[1]) and len(sym[2]) == 1:
                 sym = sym[2][0]
+            elif sym[0] == "call" and sym[1] and re.search(r"Option::<(&|&mut )?T>::(cloned|copied)$", sym[1]) and len(sym[2]) == 1:
+                sym = sym[2][0]
+            elif sym[0] == "field" and sym[2] == "0" and sym[1][0] == "downcast" and sym[1][2] == "Some" and origin(sym[1][1])[0] == "call" and \
+                    re.search(r"core::slice::<impl \[T\]>::first$", origin(sym[1][1])[1] or ""):
+                # the payload of `xs.first()` is xs[0]
+                return ("index", origin(origin(sym[1][1])[2][0]), ("const", 0, "usize"))
             else:
                 return sym
 
@@ -103,9 +109,30 @@ def run(F, R, tier):
     ALLOWED = re.compile(r"^(VM::last_popped|as_ref|deref|write_fmt|clone|drop|.*::as_ref|.*::deref|io::stdout|Write::write_fmt|.*::write_fmt|Arguments::new.*|Argument::new_display|.*::clone|.*::drop|mem::drop|fmt::.*|rt::.*)$")
     extra = [c for c in callees if not ALLOWED.match(c)]
     lp = [bi for bi in under_cmd if (Bi.blocks[bi]["term"].get("callee") or "").endswith("VM::last_popped")]
-    fm_false = bool(lp) and all(any(v is False and k != cm_name for k, v in M.bool_conditions(Bi, bi).items() if "filter" in k) for bi in lp)
+    def truths(bi):
+        out_ = {}
+        for sy, vals, dty in M.implied_conditions(Bi, bi, depth=3):
+            if dty != "bool":
+                continue
+            v_ = True if (vals == (1,) or vals == ("not", (0,))) else (False if (vals == (0,) or vals == ("not", (1,))) else None)
+            s_ = sy
+            while s_[0] == "un" and s_[1] == "Not" and v_ is not None:
+                s_, v_ = s_[2], not v_
+            if v_ is not None:
+                out_[M.show(s_)] = v_
+        return out_
+
+    def no_filters(bi):
+        # "not filter mode": the program has no filter statement and no end filter, whatever the flag is called and however
+        # the test is spelled
+        tr = truths(bi)
+        none_per_packet = any(v is True and re.search(r"is_empty\(", k) and "filters" in k for k, v in tr.items())
+        no_end = any(re.search(r"is_none\(", k) and "filter_end" in k and v is True for k, v in tr.items()) or \
+            any(re.search(r"is_some\(", k) and "filter_end" in k and v is False for k, v in tr.items())
+        return none_per_packet and no_end
+    fm_false = bool(lp) and all(no_filters(bi) for bi in lp)
     # ... and only after the program ran to its end: after a runtime error there is no value of a final expression statement
-    after_ok = bool(lp) and all(any("VM::run(" in M.show(sy) and dty != "bool" and (vals in ((0,), ("not", (1,)))) for sy, vals, dty in M.dominating_conditions(Bi, bi))
+    after_ok = bool(lp) and all(any("VM::run(" in M.show(sy) and dty != "bool" and (vals in ((0,), ("not", (1,)))) for sy, vals, dty in M.implied_conditions(Bi, bi))
                                 or any("is_err(" in k and "VM::run(" in k and v is False for k, v in M.bool_conditions(Bi, bi).items())
                                 or any("is_ok(" in k and "VM::run(" in k and v is True for k, v in M.bool_conditions(Bi, bi).items()) for bi in lp)
     R.ob("last-value-after-success", "-c prints the last value only when VM::run returned Ok (a failed run leaves an operand, not a result, in that slot)", after_ok,
